@@ -48,7 +48,9 @@ def gen_case(rnd, tier):
     N, M = rnd.choice([0, 1, 2, 3, 4]), rnd.choice([0, 1, 2, 3, 4])
     nreg = 1 << R
     n = rnd.randint(3, 14)
-    O = max(2, (n + 3).bit_length())
+    # the ROM address width is a parameter of the architecture, not of the program: in a third of the machines it is wider than the
+    # program needs, so that jumps (R+O bits) and not rset (R+rsize bits) decide the word width and the other opcodes carry padding
+    O = max(2, (n + 3).bit_length()) + rnd.choice([0, 0, 0, 0, 2, 5, 8])
     prog = []
     tier_ext = rnd.random() < 0.5
     for k in range(n):
@@ -108,7 +110,47 @@ def directed_cases(tier):
             spec = {"rsize": rsize, "procs": [{"arch": {"R": 2, "N": 0, "M": 0, "L": 0, "O": 5, "ops": ops, "mode": "ha", "rsize": rsize}, "prog": prog}],
                     "inputs": 0, "outputs": 0, "bonds": []}
             out.append((spec, []))
+    # word width decided by the jumps (O > register size): immediates and register fields of the other opcodes sit above padding;
+    # forward and backward jumps to the first, a middle and the last instruction
+    for O in (10, 12):
+        prog = ["rset r1 90", "rset r2 0", "jz r2 5", "rset r1 1", "inc r1", "inc r1", "cpy r3 r1", "dec r3", "jz r0 10", "rset r3 7", "add r3 r1", "j 13", "rset r3 9", "j 13"]
+        ops = sorted(set(l.split()[0] for l in prog) | {"nop", "j"})
+        spec = {"rsize": 8, "procs": [{"arch": {"R": 2, "N": 0, "M": 0, "L": 0, "O": O, "ops": ops, "mode": "ha", "rsize": 8}, "prog": prog}],
+                "inputs": 0, "outputs": 0, "bonds": []}
+        out.append((spec, []))
     return out
+
+
+def retire_points(seq, nprog):
+    """retire trace of a raw per-tick / per-clock sequence: cut where the program counter leaves the program (the leaving itself is kept
+    as a marker state), consecutive duplicates removed; also returns for how many raw rows the last state was held"""
+    out, held = [], 0
+    for s in seq:
+        if s[0] >= nprog:
+            s = ("left",) + tuple(s[1:])
+        if out and out[-1] == s:
+            held += 1
+        else:
+            out.append(s)
+            held = 1
+        if s[0] == "left":
+            break
+    return out, held
+
+
+def first_difference(gseq, hseq, nprog):
+    """index and the two states of the first differing retire point; a side that sits in one state for the rest of its run (at least 12 raw
+    rows) while the other side goes on to a different state differs from it at that point"""
+    (gd, gheld), (hd, hheld) = retire_points(gseq, nprog), retire_points(hseq, nprog)
+    m = min(len(gd), len(hd))
+    for k in range(m):
+        if gd[k] != hd[k]:
+            return k, gd[k], hd[k], m
+    if len(gd) > m and hd and hd[-1][0] != "left" and hheld >= 12:
+        return m, gd[m], hd[-1], m
+    if len(hd) > m and gd and gd[-1][0] != "left" and gheld >= 12:
+        return m, gd[-1], hd[m], m
+    return None, None, None, m
 
 
 def dedupe(seq):
@@ -230,16 +272,14 @@ def hwopt_part(res, rnd, a):
         gseq = [(0, tuple(0 for _ in ridx), (0,))] + [(t["procs"][0]["pc"], tuple(t["procs"][0]["regs"][i] for i in ridx), tuple(t["procs"][0]["out"]))
                                                        for t in g["ticks"]]
         hseq = [(r[0], tuple(r[1:1 + len(ridx)]), tuple(r[1 + len(ridx):2 + len(ridx)])) for r in hrows[1:]]
-        gd, hd = dedupe([x for x in gseq if x[0] < len(prog)]), dedupe([x for x in hseq if x[0] < len(prog)])
-        m = min(len(gd), len(hd))
+        k, gs, hs, m = first_difference(gseq, hseq, len(prog))
         done += 1
-        for k in range(m):
-            if gd[k] != hd[k]:
-                prev_pc = gd[k - 1][0] if k else 0
-                viol.append(("with hardware optimisations %s, after retiring '%s' the simulator has pc=%d regs=%s out=%s, the generated hardware pc=%d regs=%s out=%s"
-                             % (meta["hwopt"] or "off", prog[prev_pc] if prev_pc < len(prog) else "?", gd[k][0], list(gd[k][1]), list(gd[k][2]),
-                                hd[k][0], list(hd[k][1]), list(hd[k][2])), meta))
-                break
+        if k is not None:
+            gd = retire_points(gseq, len(prog))[0]
+            prev_pc = gd[k - 1][0] if 0 < k <= len(gd) and gd[k - 1][0] != "left" else 0
+            viol.append(("with hardware optimisations %s, after retiring '%s' the simulator has pc=%s regs=%s out=%s, the generated hardware pc=%s regs=%s out=%s"
+                         % (meta["hwopt"] or "off", prog[prev_pc] if prev_pc < len(prog) else "?", gs[0], list(gs[1]), list(gs[2]),
+                            hs[0], list(hs[1]), list(hs[2])), meta))
     return viol, done
 
 
@@ -301,30 +341,20 @@ def run(res, a):
         M = spec["outputs"]
         gseq = [(0, tuple([0] * nreg), tuple([0] * M))] + [(t["procs"][0]["pc"], tuple(t["procs"][0]["regs"]), tuple(t["procs"][0]["out"])) for t in g["ticks"]]
         hseq = [(r[0], tuple(r[1:1 + nreg]), tuple(r[1 + nreg:1 + nreg + M])) for r in hrows[1:]]
-        # compared domain: until either side's program counter leaves the program
-        def cut(seq):
-            out = []
-            for s in seq:
-                if s[0] >= len(prog):
-                    break
-                out.append(s)
-            return out
-        gd, hd = dedupe(cut(gseq)), dedupe(cut(hseq))
-        m = min(len(gd), len(hd))
+        k, gs, hs, m = first_difference(gseq, hseq, len(prog))
         hist["compared_retire_points"] += m
-        for k in range(m):
-            if gd[k] != hd[k]:
-                prev_pc = gd[k - 1][0] if k else 0
-                instr = prog[prev_pc] if prev_pc < len(prog) else "?"
-                op = instr.split()[0]
-                text = ("after retiring '%s' (retire point %d) the simulator has pc=%d regs=%s out=%s, the generated hardware pc=%d regs=%s out=%s"
-                        % (instr, k, gd[k][0], list(gd[k][1]), list(gd[k][2]), hd[k][0], list(hd[k][1]), list(hd[k][2])))
-                key = "c01_opcode_%s_rsize%d" % (op, spec["rsize"]) if ("c01_opcode_%s_rsize%d" % (op, spec["rsize"])) in known else "c01_opcode_%s" % op
-                if key in known:
-                    res.known_finding("%s %s" % (key, text))
-                else:
-                    viol.append((text, meta))
-                break
+        if k is not None:
+            gd = retire_points(gseq, len(prog))[0]
+            prev_pc = gd[k - 1][0] if 0 < k <= len(gd) and gd[k - 1][0] != "left" else 0
+            instr = prog[prev_pc] if prev_pc < len(prog) else "?"
+            op = instr.split()[0]
+            text = ("after retiring '%s' (retire point %d) the simulator has pc=%s regs=%s out=%s, the generated hardware pc=%s regs=%s out=%s"
+                    % (instr, k, gs[0], list(gs[1]), list(gs[2]), hs[0], list(hs[1]), list(hs[2])))
+            key = "c01_opcode_%s_rsize%d" % (op, spec["rsize"]) if ("c01_opcode_%s_rsize%d" % (op, spec["rsize"])) in known else "c01_opcode_%s" % op
+            if key in known:
+                res.known_finding("%s %s" % (key, text))
+            else:
+                viol.append((text, meta))
     hw_viol, hw_n = hwopt_part(res, rnd, a)
     viol += hw_viol
     hist["hw_optimised_machines_compared"] = hw_n
@@ -332,7 +362,7 @@ def run(res, a):
     cov["rule"] = ("single-processor machines: register size 8/16/32 (64 thorough), R 1-3, 0-2 inputs and outputs bonded to the machine's ports, programs of "
                    "3-14 instructions over add sub mult cpy and or xor not nand nor xnor clr inc dec rset j jz nop i2r r2o with random extra opcodes in the "
                    "architecture; the Go simulator runs 40 ticks, the generated Verilog 120 clocks under Vlog.Sem with the same constant inputs; program "
-                   "counter, register file and outputs are compared at every retire point until either leaves the program")
+                   "counter, register file and outputs are compared at every retire point until either leaves the program (the leaving itself is a retire point; a side that stays in one state while the other moves on differs)")
     cov["input_distribution"] = hist
     cov["traces_validated_against_impl"] = len(prep)
     cov["programs"] = len(prep)
